@@ -892,7 +892,7 @@ fn migration_stage(cfg: &RunCfg, agg: &Mutex<Agg>) {
 
 fn churn_config(rng: &mut Rng) -> (crate::codec::Api, usize, usize, usize) {
     use crate::codec::{Api, EngineKind, RateKind};
-    let (k, r) = *rng.pick(&[(1usize, 1usize), (2, 3), (8, 8), (16, 16), (64, 64), (100, 30), (30, 100), (200, 200), (1000, 24)]);
+    let (k, r) = *rng.pick(&[(1usize, 1usize), (2, 3), (8, 8), (16, 16), (64, 64), (100, 30), (30, 100), (200, 200), (1000, 24), (8000, 200), (300, 9000), (12000, 4000), (8000, 200)]);
     let api = match rng.below(4) {
         0 => Api::Wrapper,
         1 => Api::Rate(RateKind::High, *rng.pick(&EngineKind::fast())),
